@@ -49,7 +49,39 @@ hist    REQUEST HISTORIES on ONE open-system object through the builder accessor
           history/propagation/*       differs from the directly constructed hierarchy
           history/trace/*, history/hermiticity/*
           history/earlier-object-changed/*
+
+ctx     UNITS CONTEXT OF EVERY CONSTRUCTION STEP.  The objects of one propagation are
+        created in separate steps; each step is performed outside any units context or
+        inside `with energy_units(u)`: (hierarchy built, propagator built) in
+        {outside, inside u}^2 minus (outside, outside) x construction path {direct:
+        KTHierarchy(..) + KTHierarchyPropagator(..); agg-h: get_KTHierarchy(d) +
+        KTHierarchyPropagator(..); agg: get_KTHierarchyPropagator(d), one call, both
+        steps in the same context} x system x every spanning state x depths.
+        propagate() is always called outside a context (calling it inside one is not
+        sound on the unchanged tree and not claimed, see run.assumptions).  All oracles
+        of section dyn apply (the physical dynamics do not depend on the units that were
+        current when an OBJECT was created) plus class R equality with the same
+        construction performed outside any context.  Keys carry the prefix
+          units-context/{hierarchy,propagator,both}-built-inside/...
+          units-context/hierarchy-built-inside/reorganisation-energy-in-context-units
+                        (root cause seen on the hierarchy object; dynamics skipped)
+
+calls   PROPAGATION-CALL HISTORIES ON ONE PROPAGATOR OBJECT.  A call is (option, initial
+        state); options = {o: propagate(rho), f: propagate(rho, free_hierarchy=True),
+        r: propagate(rho, report_hierarchy=True)} (thorough: also both flags).  Product
+        P1: every history of length 1..2 over options x the N^2 spanning states; product
+        P2: every option word of length 2..Lmax, earlier calls on one generic state (all
+        matrix elements non-zero), last call on every spanning state.  EVERY call that
+        returns a propagated density matrix (all but the free_hierarchy ones, whose
+        return value is not part of the property) must reproduce the result of a FRESH
+        propagator on a fresh hierarchy (R), keep trace / Hermiticity, satisfy the
+        closed-system bound (lambda = 0) and the final-level analytic dephasing tolerance
+        (uncoupled sites, depth 5).
+          calls/differs-from-fresh-propagator/<option>-after-<options used before>/*
+          calls/closed-system/*, calls/analytic/*, calls/trace/*, calls/hermiticity/*
 """
+import contextlib
+
 import numpy
 
 from mc import isolation, systems
@@ -139,6 +171,17 @@ def _complex_hamiltonian(energies, J, e0, jphase_deg):
     return ham
 
 
+def _units(unit):
+    """energy_units(unit) context, or no context at all for unit None."""
+    return isolation.qr().energy_units(unit) if unit else contextlib.nullcontext()
+
+
+def _uctx_site(uctx):
+    h, p = bool(uctx.get("h")), bool(uctx.get("p"))
+    return {(True, False): "hierarchy-built-inside", (False, True): "propagator-built-inside",
+            (True, True): "both-built-inside"}[(h, p)]
+
+
 def _build(case, depth):
     """Fresh time axis, system, hierarchy and propagator -> (propagator, ham, ta)."""
     qr = isolation.qr()
@@ -148,14 +191,26 @@ def _build(case, depth):
     J = case.get("J") or [[0.0] * n for _ in range(n)]
     ta = systems.time_axis(int(case["nt"]), float(case["dt"]))
     baths = _bath_list(case["bath"], n)
-    if case["via"] == "agg":
+    uctx = case.get("uctx") or {}
+    uh, up = uctx.get("h"), uctx.get("p")
+    if case["via"] in ("agg", "agg-h"):
         agg = systems.aggregate(en, J=J, bath=baths, ta=ta, e0=float(case.get("e0", 0.0)))
         isolation.reset_units()
         if case.get("sec") == "index":
             hy = agg.get_KTHierarchy(depth)
             pr = None
+        elif case["via"] == "agg-h":
+            with _units(uh):
+                hy = agg.get_KTHierarchy(depth)
+            isolation.reset_units()
+            with _units(up):
+                pr = KTHierarchyPropagator(ta, hy)
         else:
-            pr = agg.get_KTHierarchyPropagator(depth)
+            if uh != up:
+                raise isolation.HarnessError("get_KTHierarchyPropagator is one call: both "
+                                             "construction steps share the units context")
+            with _units(up):
+                pr = agg.get_KTHierarchyPropagator(depth)
             hy = pr.hy
     else:
         ham, sbi = systems.ham_sbi(en, J, baths, ta, e0=float(case.get("e0", 0.0)))
@@ -166,8 +221,13 @@ def _build(case, depth):
             ham.set_rwa(list(range(n + 1)))
         else:
             ham.set_rwa([0, 1])
-        hy = KTHierarchy(ham, sbi, depth)
-        pr = KTHierarchyPropagator(ta, hy) if case.get("sec") != "index" else None
+        with _units(uh):
+            hy = KTHierarchy(ham, sbi, depth)
+        isolation.reset_units()
+        pr = None
+        if case.get("sec") != "index":
+            with _units(up):
+                pr = KTHierarchyPropagator(ta, hy)
     isolation.reset_units()
     return pr, hy, ta
 
@@ -284,8 +344,20 @@ def eval_dyn(case):
     if case.get("jphase"):
         sysname += "/complexH"
     viol, seen = [], set()
+    uctx = case.get("uctx") or None
+    prefix, ctxdesc = "", ""
+    if uctx:
+        prefix = "units-context/%s/" % _uctx_site(uctx)
+        ctxdesc = "[hierarchy built %s, propagator built %s, path %s] " % (
+            "inside energy_units(%r)" % uctx["h"] if uctx.get("h") else "outside any context",
+            "inside energy_units(%r)" % uctx["p"] if uctx.get("p") else "outside any context",
+            case["via"])
+    worst_ctx = 0.0
+    ctx_root = False
 
-    def add(key, what, det=None):
+    def add(key, what, det=None, raw=False):
+        if not raw:
+            key, what = prefix + key, ctxdesc + what
         if key not in seen:
             seen.add(key)
             viol.append((key, what, det))
@@ -315,6 +387,20 @@ def eval_dyn(case):
     for depth in depths:
         pr, hy, ta = _build(case, depth)
         ham = hy.ham
+        if uctx and uctx.get("h"):
+            # the hierarchy object must hold the bath parameters of the specification
+            # in internal units whatever units were current when it was created
+            lam_ref = numpy.array([LS.to_int(x) for x in lams], dtype=float)
+            lam_got = numpy.asarray(hy.lam, dtype=float)
+            if lam_got.shape != lam_ref.shape or float(numpy.max(numpy.abs(lam_got - lam_ref))) \
+                    > BATH_GUARD_RTOL * float(numpy.max(lam_ref)) + 1e-15:
+                add("units-context/hierarchy-built-inside/reorganisation-energy-in-context-units",
+                    ctxdesc + "depth %d: the hierarchy holds reorganisation energies %s, the "
+                    "baths have %s (internal units, = %s 1/cm)"
+                    % (depth, lam_got.tolist(), lam_ref.tolist(), lams), {"depth": depth},
+                    raw=True)
+                ctx_root = True
+                continue
         rhoi = qr.ReducedDensityMatrix(data=rho0.copy())
         rt = pr.propagate(rhoi)
         d = numpy.array(rt.data)
@@ -328,6 +414,19 @@ def eval_dyn(case):
                 % (depth, label))
             continue
         moved = max(moved, float(numpy.max(numpy.abs(d - rho0[None, :, :]))))
+        # ---- same construction outside any units context ---------------------------
+        if uctx:
+            pr0, _, _ = _build(dict(case, uctx=None), depth)
+            d0 = numpy.array(pr0.propagate(qr.ReducedDensityMatrix(data=rho0.copy())).data)
+            if d0.shape != d.shape or not numpy.all(numpy.isfinite(d0)):
+                raise isolation.HarnessError("reference construction outside a units context "
+                                             "is not finite")
+            e_ctx = float(numpy.max(numpy.abs(d - d0)))
+            worst_ctx = max(worst_ctx, e_ctx)
+            if e_ctx > RTOL * max(1.0, float(numpy.max(numpy.abs(d0)))):
+                add("differs-from-construction-outside-a-context/%s" % sysname,
+                    "depth %d state %s: result differs by %.3g from the same objects created "
+                    "outside any units context" % (depth, label, e_ctx), {"depth": depth})
         # ---- trace and Hermiticity at every stored time -----------------------
         tr = numpy.trace(d, axis1=1, axis2=2)
         e_tr = float(numpy.max(numpy.abs(tr - 1.0)))
@@ -414,7 +513,8 @@ def eval_dyn(case):
     superpos = case["state"] >= N
     excited_pop = 1 <= case["state"] < N
     nontrivial = bool((superpos or (coupled and excited_pop)) and moved > 1e-6)
-    info = {"sec": "dyn", "worst": worst, "errs": errs if analytic_applies else None,
+    info = {"sec": "ctx" if uctx else "dyn", "worst_ctx": worst_ctx, "ctx_root": ctx_root,
+            "worst": worst, "errs": errs if analytic_applies else None,
             "amp": amp, "analytic": bool(analytic_applies), "skipped": analytic_skipped,
             "kappa": kappa, "admissible": admissible,
             "label": label, "lam": lams, "sys": sysname, "dmax": depths[-1]}
@@ -422,6 +522,8 @@ def eval_dyn(case):
                case["dt"], label, _r(moved, 4), digest]
     if case.get("jphase"):
         outcome.append(case["jphase"])
+    if uctx:
+        outcome.append([uctx.get("h"), uctx.get("p")])
     return {"nontrivial": nontrivial, "outcome": outcome, "violations": viol,
             "n": len(depths) - 1, "info": info}
 
@@ -612,11 +714,185 @@ def eval_hist(case):
                      "descending": any(a > b for a, b in zip(hist, hist[1:]))}}
 
 
+# ----------------------------------------------------------------------------
+# section calls: propagation-call histories on one propagator object
+# ----------------------------------------------------------------------------
+CALL_OPTS = {"o": ("ordinary", {}),
+             "f": ("free_hierarchy", {"free_hierarchy": True}),
+             "r": ("report_hierarchy", {"report_hierarchy": True}),
+             "b": ("free+report_hierarchy", {"free_hierarchy": True, "report_hierarchy": True})}
+CALL_CHECKED = "or"             # calls that return the propagated reduced density matrix
+CALLS_ANALYTIC_DEPTH = 5        # depth at which the class Q numbers were calibrated (quick)
+_CALL_REF = {}
+
+
+def call_states(N):
+    """The spanning set + one generic valid state with every matrix element non-zero
+    (index N^2; pure state, components of different modulus and phase)."""
+    out = spanning_states(N)
+    v = numpy.array([(k + 1.0) * numpy.exp(0.7j * k) for k in range(N)])
+    v = v / numpy.linalg.norm(v)
+    out.append(("gen", numpy.outer(v, v.conj())))
+    return out
+
+
+def _call_fresh(case, si):
+    """Ordinary propagation of state `si` by a FRESH propagator on a fresh hierarchy of the
+    case's system (same construction path).  Deterministic; memoised per worker process."""
+    key = repr((case["energies"], case.get("J"), case["bath"], case["via"], case["nt"],
+                case["dt"], case.get("e0", 0.0), case["depth"], si))
+    if key not in _CALL_REF:
+        qr = isolation.qr()
+        pr, _, _ = _build(case, int(case["depth"]))
+        rho0 = call_states(len(case["energies"]) + 1)[si][1]
+        _CALL_REF[key] = numpy.array(pr.propagate(qr.ReducedDensityMatrix(data=rho0.copy())).data)
+    return _CALL_REF[key]
+
+
+def _kappa(rho0, baths):
+    """Dimensionless coupling of the element groups present in rho0 (see KAPPA_MAX)."""
+    N = rho0.shape[0]
+    kappa = {"optical": 0.0, "intersite": 0.0, "population": 0.0}
+    for a in range(N):
+        for b in range(N):
+            if a == b or abs(rho0[a, b]) == 0.0:
+                continue
+            inv = [baths[x - 1] for x in (a, b) if x > 0]
+            kT = LS.kBT_int(inv[0]["T"])
+            lsum = sum(LS.to_int(x["reorg"]) for x in inv)
+            gmin = min(1.0 / float(x["cortime"]) for x in inv)
+            g = "optical" if (a == 0 or b == 0) else "intersite"
+            kappa[g] = max(kappa[g], float(numpy.sqrt(2.0 * kT * lsum) / gmin))
+    return kappa
+
+
+def eval_calls(case):
+    qr = isolation.qr()
+    en = case["energies"]
+    n = len(en)
+    N = n + 1
+    depth = int(case["depth"])
+    word, sidx = case["word"], [int(x) for x in case["states"]]
+    J = case.get("J") or [[0.0] * n for _ in range(n)]
+    coupled = any(J[i][j] != 0 for i in range(n) for j in range(n) if i != j)
+    baths = _bath_list(case["bath"], n)
+    lams = [float(b["reorg"]) for b in baths]
+    all_zero = all(l == 0.0 for l in lams)
+    ht = all(b.get("ftype", HT) == HT for b in baths)
+    sysname = "%dsite/%s" % (n, "coupled" if coupled else "uncoupled")
+    states = call_states(N)
+    groups = _groups(N)
+    viol, seen = [], set()
+
+    def add(key, what, det=None):
+        if key not in seen:
+            seen.add(key)
+            viol.append((key, what, det))
+
+    pr, hy, ta = _build(case, depth)
+    ham = hy.ham
+    t = numpy.array(ta.data, dtype=float)
+    H = numpy.array(ham.data, dtype=complex)
+    om = numpy.array(ham.rwa_energies, dtype=float)
+    frame_ok = CR.commutes(H, om)
+    analytic = (not coupled) and (not all_zero) and ht and frame_ok and \
+        depth >= CALLS_ANALYTIC_DEPTH
+    if analytic:
+        gs = []
+        for k, b in enumerate(baths):
+            lam, gam, kBT = LS.bath_params_int(b)
+            gs.append(LS.g_ht(t, lam, gam, kBT))
+            c_lib = numpy.array(hy.sbi.CC.get_correlation_function(k, k).data)
+            c_ref = LS.corfce_ht(t, lam, gam, kBT)
+            if lam != 0.0 and (c_lib.shape != c_ref.shape or float(numpy.max(numpy.abs(
+                    c_lib - c_ref))) > BATH_GUARD_RTOL * float(numpy.max(numpy.abs(c_ref)))):
+                analytic = False        # reported by section dyn (analytic/bath-not-HT-form)
+    used = []
+    worst = {"fresh": 0.0, "closed_ratio": 0.0, "analytic": 0.0}
+    nchecked, nafter, moved = 0, 0, 0.0
+    for step, (opt, si) in enumerate(zip(word, sidx)):
+        label, rho0 = states[si]
+        name, kw = CALL_OPTS[opt]
+        rt = pr.propagate(qr.ReducedDensityMatrix(data=rho0.copy()), **kw)
+        before = "+".join(sorted(set(used))) if used else "nothing"
+        used.append(name)
+        if opt not in CALL_CHECKED:
+            continue
+        nchecked += 1
+        nafter += 1 if step > 0 else 0
+        how = "%s-after-%s" % (name, before)
+        where = "call #%d (%s, state %s) of the history %s on states %s on one propagator" % (
+            step, name, label, "-".join(CALL_OPTS[o][0] for o in word),
+            [states[i][0] for i in sidx])
+        d = numpy.array(rt.data)
+        ref = _call_fresh(case, si)
+        if d.shape != ref.shape or not numpy.all(numpy.isfinite(d)):
+            add("calls/shape-or-finite/%s/%s" % (how, sysname),
+                where + ": shape %s / non-finite values" % (d.shape,), {"step": step})
+            continue
+        if step > 0:
+            moved = max(moved, float(numpy.max(numpy.abs(ref - rho0[None, :, :]))))
+        sc = max(1.0, float(numpy.max(numpy.abs(ref))))
+        e = float(numpy.max(numpy.abs(d - ref)))
+        worst["fresh"] = max(worst["fresh"], e)
+        if e > RTOL * sc:
+            add("calls/differs-from-fresh-propagator/%s/%s" % (how, sysname),
+                where + ": differs by %.3g from the result of a fresh propagator on a fresh "
+                "hierarchy" % e, {"step": step})
+        tr = numpy.trace(d, axis1=1, axis2=2)
+        if float(numpy.max(numpy.abs(tr - 1.0))) > RTOL * sc:
+            add("calls/trace/%s/%s" % (how, sysname), where + ": |Tr rho - 1| = %.3g"
+                % float(numpy.max(numpy.abs(tr - 1.0))), {"step": step})
+        he = float(numpy.max(numpy.abs(d - numpy.conj(numpy.transpose(d, (0, 2, 1))))))
+        if he > RTOL * sc:
+            add("calls/hermiticity/%s/%s" % (how, sysname), where + ": max |rho - rho^+| = %.3g"
+                % he, {"step": step})
+        if all_zero and frame_ok:
+            cref = CR.closed_evolution(H, om, rho0, t)
+            bound = CR.taylor_bound(H, om, float(case["dt"]), len(t) - 1, TAYLOR_ORDER)
+            dev = numpy.sqrt(numpy.sum(numpy.abs(d - cref) ** 2, axis=(1, 2)))
+            tol = 2.0 * bound * float(numpy.linalg.norm(rho0)) + RTOL
+            worst["closed_ratio"] = max(worst["closed_ratio"], float(numpy.max(dev / tol)))
+            if numpy.any(dev > tol):
+                k = int(numpy.argmax(dev / tol))
+                add("calls/closed-system/%s/%s" % (how, sysname),
+                    where + ": lambda=0, |rho - expm(-i(H-Om)t)rho0 expm(+)|_F = %.3g at t "
+                    "index %d, Taylor-%d bound allows %.3g"
+                    % (float(dev[k]), k, TAYLOR_ORDER, float(tol[k])), {"step": step})
+        if analytic:
+            aref = LS.pure_dephasing_solution(rho0, t, numpy.real(numpy.diag(H)) - om, gs,
+                                              [None] + list(range(n)))
+            kap = _kappa(rho0, baths)
+            for g, m in groups.items():
+                if not m.any() or kap[g] > KAPPA_MAX:
+                    continue
+                a = float(numpy.max(numpy.abs(rho0[m])))
+                a = a if a > 0 else 1.0
+                err = float(numpy.max(numpy.abs((d - aref)[:, m])))
+                worst["analytic"] = max(worst["analytic"], err / a)
+                if err > TOLS[g] * a + RTOL:
+                    add("calls/analytic/%s/not-converged/%s" % (g, how),
+                        where + ": error vs the analytic dephasing solution at depth %d is "
+                        "%.3g (initial amplitude %.3g), tolerance %.3g"
+                        % (depth, err, a, TOLS[g] * a), {"step": step})
+    nontrivial = bool(nafter > 0 and moved > 1e-6)
+    outcome = [sysname, case["via"], depth, word, sidx, _r(moved, 4)]
+    return {"nontrivial": nontrivial, "outcome": outcome, "violations": viol,
+            "n": len(word) - 1,
+            "info": {"sec": "calls", "worst": worst, "checked": nchecked,
+                     "checked_after_earlier_call": nafter, "analytic": bool(analytic),
+                     "closed": bool(all_zero and frame_ok),
+                     "after_free": any(CALL_OPTS[o][1].get("free_hierarchy")
+                                       for o in word[:-1])}}
+
+
 def eval_case(case):
     if case["sec"] == "index":
         return eval_index(case)
     if case["sec"] == "hist":
         return eval_hist(case)
+    if case["sec"] == "calls":
+        return eval_calls(case)
     return eval_dyn(case)
 
 
@@ -784,8 +1060,116 @@ def hist_cases(tier):
     return out
 
 
+CTX_UNITS = {"quick": ["1/cm"], "thorough": ["1/cm", "eV"]}
+
+
+def _ctx_combos(tier):
+    """{construction path: [units context of (hierarchy built, propagator built)]}; None =
+    outside any context.  Separate steps: full square minus (None, None); the one-call
+    accessor: both steps inside the same context."""
+    us = [None] + CTX_UNITS[tier]
+    indep = [{"h": h, "p": p} for h in us for p in us if (h or p)]
+    same = [{"h": u, "p": u} for u in CTX_UNITS[tier]]
+    return {"direct": indep, "agg-h": indep, "agg": same}
+
+
+def ctx_cases(tier):
+    out = []
+    combos = _ctx_combos(tier)
+
+    def add(energies, J, bath, nt, dt, depths, e0=0.0, vias=("direct", "agg-h", "agg")):
+        N = len(energies) + 1
+        for via in vias:
+            for u in combos[via]:
+                for s in range(N * N):
+                    out.append({"sec": "dyn", "energies": energies, "J": J, "bath": bath,
+                                "via": via, "rwa": "blocks", "nt": nt, "dt": dt, "state": s,
+                                "depths": depths, "e0": e0, "uctx": dict(u)})
+
+    mixed2 = [_bath(30, 50), _bath(20, 40)]
+    if tier == "quick":
+        # zero coupling strength: closed-system clause
+        add([E0, E0 + 200.0], _J(2, 100.0), _bath(0.0), 50, 2.0, [0, 2])
+        # ground state off zero energy (the lowest block has its own reference frequency),
+        # analytic clause on every depth
+        add([E0 + 300.0], None, _bath(30.0), 50, 2.0, list(range(0, 6)), e0=300.0)
+        # uncoupled sites with different baths: inter-site analytic clause
+        add([E0, E0 + 200.0], _J(2, 0.0), mixed2, 30, 2.0, [3, 5], vias=("direct", "agg"))
+        # coupled open system (equality with the construction outside, trace, Hermiticity)
+        add([E0 + 300.0, E0 + 500.0], _J(2, 100.0), _bath(30.0), 50, 2.0, [2], e0=300.0)
+        return out
+    # the analytic clause (uncoupled sites) needs the calibrated deepest level 6; coupled
+    # systems have the closed-system clause (lambda = 0) and the equality with the
+    # construction outside a context, for which shallower hierarchies suffice
+    nt, dt = 50, 2.0
+    for e0 in (0.0, 300.0):
+        for b, dd in ((_bath(0), [0, 2]), (_bath(30), list(range(0, 7)))):
+            add([E0 + e0], None, b, nt, dt, dd, e0=e0)
+    for gap in (0.0, 200.0):
+        for J in (0.0, 100.0):
+            add([E0, E0 + gap], _J(2, J), _bath(0), nt, dt, [0, 2])
+        for b in (_bath(30), mixed2):
+            add([E0, E0 + gap], _J(2, 0.0), b, nt, dt, [0, 3, 6])
+            add([E0, E0 + gap], _J(2, 100.0), b, nt, dt, [0, 2, 4])
+    add([E0 + 300.0, E0 + 500.0], _J(2, 100.0), _bath(30.0), nt, dt, [0, 2, 4], e0=300.0)
+    add([E0 - 150.0, E0 + 50.0], _J(2, 0.0), _bath(30.0), nt, dt, [0, 3, 6], e0=-150.0)
+    en3 = [E0, E0 + 200.0, E0 - 100.0]
+    for b in (_bath(0), _bath(30)):
+        add(en3, _J(3, 100.0), b, nt, dt, [0, 2])
+    return out
+
+
+# calls: (name, energies, J, bath, via, depth, nt, dt, P1 = largest length of the full
+# (option x spanning state) history product, P2 = (shortest, longest) option word whose
+# earlier calls use the generic state and whose last call runs over the spanning set)
+def _calls_space(tier):
+    mixed2 = [_bath(30, 50), _bath(20, 40)]
+    dim = [E0, E0 + 200.0]
+    if tier == "quick":
+        return "ofr", [
+            ([E0], None, _bath(30.0), "agg", 5, 25, 2.0, 2, (3, 3)),
+            (dim, _J(2, 100.0), _bath(0.0), "direct", 1, 8, 5.0, 2, (3, 3)),
+            (dim, _J(2, 100.0), _bath(30.0), "agg-h", 2, 8, 5.0, 0, (2, 3))]
+    sp = [([E0], None, _bath(30.0), "agg", 5, 30, 2.0, 2, (3, 4)),
+          ([E0], None, _bath(30.0), "direct", 5, 30, 2.0, 2, (3, 3))]
+    for depth in (1, 2):
+        sp.append((dim, _J(2, 100.0), _bath(0.0), "direct", depth, 8, 5.0, 2, (3, 4)))
+    sp.append((dim, _J(2, 100.0), _bath(30.0), "agg-h", 1, 8, 5.0, 2, (3, 4)))
+    sp.append((dim, _J(2, 100.0), _bath(30.0), "direct", 2, 8, 5.0, 0, (2, 3)))
+    sp.append((dim, _J(2, 100.0), _bath(30.0), "agg", 3, 8, 5.0, 0, (2, 3)))
+    sp.append((dim, _J(2, 0.0), mixed2, "agg", 5, 30, 2.0, 0, (2, 3)))
+    sp.append(([E0, E0 + 200.0, E0 - 100.0], _J(3, 100.0), _bath(30.0), "direct", 2, 6, 5.0,
+               0, (2, 3)))
+    return "ofrb", sp
+
+
+def calls_cases(tier):
+    import itertools
+    opts, space = _calls_space(tier)
+    out = []
+    for energies, J, bath, via, depth, nt, dt, p1, p2 in space:
+        N = len(energies) + 1
+        S, G = list(range(N * N)), N * N
+        hs = []
+        for L in range(1, p1 + 1):
+            for w in itertools.product(opts, repeat=L):
+                for st in itertools.product(S, repeat=L):
+                    hs.append(("".join(w), list(st)))
+        for L in range(p2[0], p2[1] + 1):
+            for w in itertools.product(opts, repeat=L):
+                for s in S:
+                    hs.append(("".join(w), [G] * (L - 1) + [s]))
+        for w, st in hs:
+            out.append({"sec": "calls", "energies": energies, "J": J, "bath": bath, "via": via,
+                        "rwa": "blocks", "depth": depth, "nt": nt, "dt": dt, "e0": 0.0,
+                        "word": w, "states": st})
+    out.sort(key=lambda c: len(c["word"]))
+    return out
+
+
 def cases(tier):
-    return index_cases(tier) + hist_cases(tier) + dyn_cases(tier)
+    return (index_cases(tier) + hist_cases(tier) + dyn_cases(tier) + ctx_cases(tier)
+            + calls_cases(tier))
 
 
 # ----------------------------------------------------------------------------
@@ -804,7 +1188,17 @@ def run(run):
                 "initial states x every depth 0..Dmax (a fresh hierarchy+propagator per "
                 "propagation); non-trivial = initial state is a superposition, or an excited "
                 "site population of a coupled system, AND the propagated state moved by more "
-                "than 1e-6 from the initial one")
+                "than 1e-6 from the initial one; ctx: full product (system x construction path "
+                "x units context of (hierarchy built, propagator built) in {outside, inside "
+                "energy_units(u)}^2 minus (outside, outside); the one-call accessor: both "
+                "inside) x every spanning state x depths, oracles and non-triviality of dyn "
+                "plus class R equality with the construction outside; calls: every history of "
+                "propagate calls (option x initial state) on ONE propagator object of products "
+                "P1 (length <= 2, all spanning states in every call) and P2 (option words up "
+                "to Lmax, earlier calls on the generic state, last call on every spanning "
+                "state); every call returning a propagated density matrix is compared with a "
+                "fresh propagator; non-trivial = a checked call follows an earlier call and "
+                "its fresh reference moves by more than 1e-6")
     run.assumptions = [
         "reference models: mc/refmodels/hierarchy_index.py (compositions, neighbour tables), "
         "lineshape.py (g(t) of the high-temperature overdamped Brownian oscillator), "
@@ -824,7 +1218,22 @@ def run(run):
         "complex Hamiltonian class: only through direct construction (the aggregate builder "
         "accepts real couplings); clauses with a reference are closed-system (expm of the "
         "complex H), trace and Hermiticity; the harness verifies that the Hamiltonian object "
-        "holds the complex matrix it was given"]
+        "holds the complex matrix it was given",
+        "ctx: the units-context dimension covers the CONSTRUCTION steps only (KTHierarchy / "
+        "get_KTHierarchy, KTHierarchyPropagator / get_KTHierarchyPropagator).  Calling "
+        "propagate() itself inside energy_units(u) is NOT claimed: on the unchanged tree it is "
+        "not sound for any construction (Hamiltonian.data is units-managed, so H - HOmega "
+        "mixes u numbers with internal ones and the run diverges); the property speaks about "
+        "the propagated state, not about the units that are current during the call.  The "
+        "system (Hamiltonian, baths, aggregate) is always assembled before, outside the "
+        "varied steps; units are reset by the harness after every step (isolation from C05)",
+        "calls: what propagate(rho, free_hierarchy=True) returns is not claimed (kernel mode, "
+        "not a propagated reduced density matrix); such calls only act as earlier history.  "
+        "Histories containing them need level 1 to exist: depth >= 1 everywhere in this "
+        "section.  report_hierarchy=True is an ordinary propagation that also stores ADO "
+        "traces; its returned evolution is checked like an ordinary one.  The analytic "
+        "clause is the final-level tolerance at depth %d (calibration depth of the quick "
+        "tier) on time axes not longer than the calibrated ones" % CALLS_ANALYTIC_DEPTH]
     q = run.tier == "quick"
     run.bounds = {
         "index": {"baths": "1..4" if q else "1..5", "depth": "0..5" if q else "0..7 (K=5: 0..6)",
@@ -849,6 +1258,23 @@ def run(run):
                 "full OB type (trace/Hermiticity only)",
                 "time": "150 x 1 fs" if q else "200 x 1 fs, 100 x 2 fs",
                 "initial states": "all N^2 members of the spanning set"},
+        "ctx": {"units": CTX_UNITS[run.tier],
+                "contexts (hierarchy built, propagator built)":
+                    {k: [[u["h"], u["p"]] for u in v] for k, v in _ctx_combos(run.tier).items()},
+                "propagate called": "outside any context (inside: not claimed)",
+                "systems": "coupled dimer lambda=0; monomer with ground state off zero; "
+                           "uncoupled dimer with two different baths; coupled open dimer with "
+                           "ground state off zero" if q else
+                           "monomers e0 {0,300} x lambda {0,30}; dimers gap {0,200} x J {0,100} "
+                           "x baths {0, 30, mixed}; dimers with ground state off zero; coupled "
+                           "trimer x lambda {0,30}",
+                "initial states": "all N^2 members of the spanning set"},
+        "calls": {"options": {k: CALL_OPTS[k][0] for k in _calls_space(run.tier)[0]},
+                  "systems (sites, path, depth, nt x dt, P1 max length, P2 lengths)":
+                      [[len(x[0]), x[3], x[4], "%d x %g" % (x[5], x[6]), x[7], list(x[8])]
+                       for x in _calls_space(run.tier)[1]],
+                  "states": "P1: N^2 spanning states in every call; P2: generic state in the "
+                            "earlier calls, N^2 spanning states in the last"},
         "tolerances": {"R": RTOL, "T": "2 x Taylor-%d bound + R" % TAYLOR_ORDER,
                        "Q_optical": TOL_OPTICAL, "Q_intersite": TOL_INTERSITE,
                        "Q_population": TOL_POPULATION, "Q_admissible_kappa_max": KAPPA_MAX}}
@@ -898,6 +1324,34 @@ def run(run):
                     n_inadm += 1
         if inf.get("skipped"):
             nskip[inf["skipped"]] = nskip.get(inf["skipped"], 0) + 1
+    # ---- units context of the construction steps -------------------------------------
+    xc = ctx_cases(run.tier)
+    order = sorted(range(len(xc)), key=lambda i: -(len(xc[i]["energies"]) * 10
+                                                   + max(xc[i]["depths"])))
+    xinfos = run_grid(run, [xc[i] for i in order], eval_case, section="ctx", chunksize=1)
+    run.note(units_context={
+        "cases": len(xinfos),
+        "worst_deviation_from_construction_outside": max([i["worst_ctx"] for i in xinfos]
+                                                         or [0.0]),
+        "closed_system_fraction_of_bound": max([i["worst"]["closed_ratio"] for i in xinfos]
+                                               or [0.0]),
+        "analytic_cases": sum(1 for i in xinfos if i["analytic"] and i["errs"]),
+        "hierarchy_parameter_root_cause_cases": sum(1 for i in xinfos if i["ctx_root"])})
+    # ---- call histories on one propagator --------------------------------------------
+    cinfos = run_grid(run, calls_cases(run.tier), eval_case, section="calls")
+    run.note(call_histories={
+        "cases": len(cinfos),
+        "checked_calls": sum(i["checked"] for i in cinfos),
+        "checked_calls_after_an_earlier_call": sum(i["checked_after_earlier_call"]
+                                                   for i in cinfos),
+        "cases_with_free_hierarchy_call_before_the_last": sum(1 for i in cinfos
+                                                              if i["after_free"]),
+        "worst_deviation_from_fresh_propagator": max([i["worst"]["fresh"] for i in cinfos]
+                                                     or [0.0]),
+        "closed_system_fraction_of_bound": max([i["worst"]["closed_ratio"] for i in cinfos]
+                                               or [0.0]),
+        "analytic_rel_error_at_depth_%d" % CALLS_ANALYTIC_DEPTH:
+            max([i["worst"]["analytic"] for i in cinfos] or [0.0])})
     run.note(worst_deviation={"trace": w["trace"], "hermiticity": w["herm"],
                               "closed_system_abs": w["closed"],
                               "closed_system_fraction_of_bound": w["closed_ratio"],
